@@ -639,7 +639,10 @@ class MapfileTransformer(Transformer):
     def list(self, t):
         # http://www.mapserver.org/mapfile/expressions.html#list-expressions
         v = t[0]
-        list_values = ",".join([str(s) for s in t])
+        # bindings etc. have a rewritten string value (e.g. "[name]"), other tokens keep their text
+        list_values = ",".join(
+            [s.value if isinstance(s.value, str) else str(s) for s in t]
+        )
         v.value = "{%s}" % list_values
         return v
 
